@@ -428,7 +428,7 @@ func init() {
 		Rule: "three kinds of runs. (A, half of the runs) one seeded world (platform or processor CA), honest or with one of 27 static faults (wire, endpoint, revocation, TCB status, clock, pool, signature; out-of-date copies of the root / intermediate / leaf / collateral signer / CRL issuer as carried in the quote and in issuer-chain headers while the pool holds the current root; stale CRL or TCB Info), verified under all four option settings with a recording fetcher: monotonicity acc(O2)=>acc(O1)=>acc(O0), O3 rejects, zero fetches without the collateral option, CRL routes only with revocation, fmspc / ca query parameters equal to what the CA put in the leaf. (B) two histories of 2-6 verifications (quotes of up to 3 worlds, flags / pool / times edited between calls, per-call wire / clock / pool faults) each through ONE options value, interleaved by the seeded scheduler at the Getter seam; every verdict compared with a fresh options value. (C) the same with Options.Now unset on the testing/synctest fake clock with jumps of hours / weeks / decades between calls. " +
 			"distinct = (fault, CA kind, verdict vector) resp. (history length, switches) resp. (calls, expiry seen)",
 		Assumptions: []string{"number, order and repetition of fetches are not judged, only which routes may be contacted and their parameters"},
-		RealStub: map[string]string{"verify.RawTdxQuote": "real", "pcs URL builders": "real (checked by the stub's own URL parser)", "Intel PCS": "stub (recording)", "clock": "Options.Now from the simulated clock; part C: testing/synctest fake clock read by the library's time.Now"},
+		RealStub:    map[string]string{"verify.RawTdxQuote": "real", "pcs URL builders": "real (checked by the stub's own URL parser)", "Intel PCS": "stub (recording)", "clock": "Options.Now from the simulated clock; part C: testing/synctest fake clock read by the library's time.Now"},
 		Runs: func(tier string) int {
 			if tier == "thorough" {
 				return 30000
